@@ -449,6 +449,40 @@ fn judge_stats<F: K>(runs_f: &[(f64, u64)], s: &mut Sink) {
     }
     s.calls += n;
     s.evals += 1;
+    // the same stream as merged Arithmetic states: right fold of single-observation states
+    // (the running state is always the right-hand operand) and left fold of 3-element states
+    let mut merged: Vec<(&str, Arithmetic<F>)> = vec![];
+    if n <= 120_000 {
+        let mut acc: Option<Arithmetic<F>> = None;
+        for &(v, r) in runs.iter().rev() {
+            for _ in 0..r {
+                let mut one = Arithmetic::<F>::new();
+                StatisticsOps::append(&mut one, v).unwrap();
+                acc = Some(match acc {
+                    None => one,
+                    Some(a) => one + a,
+                });
+            }
+        }
+        merged.push(("right fold of single-observation states", acc.unwrap()));
+        let mut acc = Arithmetic::<F>::new();
+        let mut cur = Arithmetic::<F>::new();
+        let mut c = 0;
+        for &(v, r) in &runs {
+            for _ in 0..r {
+                StatisticsOps::append(&mut cur, v).unwrap();
+                c += 1;
+                if c == 3 {
+                    acc += cur;
+                    cur = Arithmetic::<F>::new();
+                    c = 0;
+                }
+            }
+        }
+        acc += cur;
+        merged.push(("left fold of 3-element states", acc));
+        s.calls += 3 * n;
+    }
     let ex = mc::exact::exact_stats_runs(&runs.iter().map(|r| (r.0.f(), r.1)).collect::<Vec<_>>());
     let sum_sq = mc::exact::to_f64(&ex.sum_sq);
     if !sum_sq.is_finite() || !F::of(sum_sq).f().is_finite() {
@@ -462,6 +496,21 @@ fn judge_stats<F: K>(runs_f: &[(f64, u64)], s: &mut Sink) {
     s.max(&format!("mean_err_over_tol[{}]", F::NAME), em / tol_mean.max(f64::MIN_POSITIVE), || format!("{runs_f:?}"));
     if !(em <= tol_mean) {
         s.violation(format!("A/{}/mean-error-exceeds-bound", F::NAME), format!("{} runs {runs_f:?}: sample_mean {mean:?}, exact {:?}, error {em:.3e} > {tol_mean:.3e}", F::NAME, ex.mean_f()), case());
+    }
+    for (name, m) in &merged {
+        let (mm, mv) = (m.sample_mean().f(), m.sample_variance().f());
+        if m.sample_count() as u64 != n {
+            s.violation(format!("A/{}/merged-count", F::NAME), format!("{name}: count {} != {n}", m.sample_count()), case());
+        }
+        let em = (mm - ex.mean_f()).abs();
+        if !(em <= tol_mean) {
+            s.violation(format!("A/{}/merged-mean-error-exceeds-bound", F::NAME), format!("{} runs {runs_f:?} as {name}: sample_mean {mm:?}, exact {:?}, error {em:.3e} > {tol_mean:.3e}", F::NAME, ex.mean_f()), case());
+        }
+        let tol_var_m = (3.0 * C * F::U + 3.0 * C * n as f64 * F::U * F::U) * sum_sq / (n - 1) as f64;
+        let ev = (mv - ex.var_f()).abs();
+        if !(ev <= tol_var_m) {
+            s.violation(format!("A/{}/merged-variance-error-exceeds-bound", F::NAME), format!("{} runs {runs_f:?} as {name}: sample_variance {mv:?}, exact {:?}, error {ev:.3e} > {tol_var_m:.3e}", F::NAME, ex.var_f()), case());
+        }
     }
     // variance: sum of squares inherits the bound (absolute error relative to sum x^2)
     let var = st.sample_variance().f();
